@@ -18,8 +18,10 @@ RULE = ("every case = (reads file, haplotag list file, option set, PYTHONHASHSEE
         "with fresh random data (FASTQ, "
         "FASTQ.gz, unmapped and mapped BAM incl. records without sequence, paired/secondary/supplementary/unmapped "
         "flags, both mates of a pair under one name (adjacent or separated), primary + supplementary of one name, tags; "
-        "0-10 reads drawn from a pool of 1-6 names (random names and names that share prefixes or look like "
-        "haplotype/phase-set/chromosome names), so duplicate names -- adjacent and separated -- are the rule; exact "
+        "0-10 reads drawn from a pool of 1-6 names (random names, names over the whole printable ASCII set starting "
+        "with '#', '@', '+', ';', ':' or other punctuation -- a dedicated stream lists '#'-names with a haplotype on the "
+        "first and on later lines, with and without header line, five header spellings --, and names that share "
+        "prefixes or look like haplotype/phase-set/chromosome names), so duplicate names -- adjacent and separated -- are the rule; exact "
         "duplicate records; FASTQ with/without final newline; lists with 2-5 columns, with/without header, plain/gz, "
         "LF/CRLF, with/without final newline, names absent from the reads, `none` lines, repeated names (agreeing and "
         "conflicting), 1-4 phase sets on 1-3 chromosomes, the same phase-set name on several chromosomes); with "
@@ -47,6 +49,9 @@ ASSUMPTIONS = [
     "the haplotype list is non-empty text with haplotype names none/H1..Hploidy, has >= 4 columns when "
     "--only-largest-block is used, and names at least one read when --discard-unknown-reads is used (the code "
     "rejects everything else on purpose; those inputs are compared on the error class only)",
+    "list format as HEAD implements it: the first line is the header iff it starts with '#' (also when it was meant "
+    "as the entry of a read named '#...': the format cannot tell the two apart, the entry is then not part of the "
+    "list); '#' at the start of any later line belongs to a read name",
     "at least one of --output-h1/--output-h2/-o is given (argument validation is not part of the property)",
     "`largest phased block (in terms of read count)` is read as the code documents it by behaviour: the phase set with "
     "the most tagged list lines on the chromosome, the first one in the file among several of that size (L1 demands "
@@ -192,6 +197,8 @@ def describe(case, ob):
         outs += " (/dev/null for outputs %s; 0 = untagged)" % [i for i, x in enumerate(sc.opts_null(o)) if x]
     names = [r["name"] if isinstance(r, dict) else r[0] for r in case["reads"]]
     lst = [f"{n} {h}" + (f" {ps} {ch}" if case['list']['ncols'] >= 4 else "") for n, h, ps, ch in case["list"]["lines"]]
+    if sc.effective_list(case["list"])[0] and not case["list"]["header"]:
+        lst = ["<first line read as header by the format:>"] + lst
     if ob["rc"] != 0:
         res = f"exit {ob['rc']} ({ob['error']}: {ob.get('stderr', '').strip().splitlines()[-1:]})"
     else:
@@ -286,6 +293,28 @@ def process(ctx, results, label, count=True):
                     ctx.tally("opt." + k)
             ctx.tally("list.cols%d" % case["list"]["ncols"])
             ctx.tally("list.header" if case["list"]["header"] else "list.noheader")
+            if case["list"]["header"]:
+                ctx.tally("list.header_spelling.%d" % case["list"].get("header_style", 0))
+            rn = {x[0] for x in ob["inputs"]}
+            for ch, key in (("#", "hash"), ("@", "at"), ("+", "plus"), (";", "semicolon"), (":", "colon"), (">", "gt")):
+                if any(x.startswith(ch) for x in rn):
+                    ctx.tally(f"names.read_starts_with_{key}." + ("bam" if case["fmt"] == "bam" else "fastq"))
+            if any(not x[0].isalnum() for x in rn if x):
+                ctx.tally("names.read_starts_with_punctuation")
+            ll = case["list"]["lines"]
+            hashl = [i for i, x in enumerate(ll) if x[0].startswith("#")]
+            if hashl:
+                ctx.tally("list.hash_name.with_header_line" if case["list"]["header"] else "list.hash_name.without_header_line")
+                if 0 in hashl:
+                    ctx.tally("list.hash_name.on_first_line" + ("_after_header" if case["list"]["header"]
+                                                                  else "_no_header__read_as_header_by_format"))
+                if any(i > 0 for i in hashl):
+                    ctx.tally("list.hash_name.on_later_line")
+                    if any(i > 0 and ll[i][1] != "none" and ll[i][0] in rn for i in hashl):
+                        ctx.tally("list.hash_name.on_later_line_tagged_and_among_reads")
+                        for k in ("add", "discard", "hist", "largest"):
+                            if o[k]:
+                                ctx.tally("list.hash_name.on_later_line_tagged_and_among_reads.with_" + k)
             nm = [x[0] for x in ob["inputs"]]
             if len(set(nm)) < len(nm):
                 ctx.tally("reads.duplicate_names")
@@ -454,6 +483,10 @@ def run(ctx):
         given = [o["untagged"]] + ([o["h1"], o["h2"]] if o["mode"] == "h" else [True] * o["k"])
         o["null"] = list(given) if rng.random() < 0.5 else [g and rng.random() < 0.6 for g in given]
         cases.append(c)
+    # read names starting with '#' (legal in SAM and FASTQ), listed with a haplotype on the first or a later
+    # line of lists with and without header line
+    for _ in range(ctx.n(48, 480)):
+        cases.append(sc.gen_case(rng, hash_names=True))
     # (d) rejected inputs
     for _ in range(ctx.n(6, 60)):
         for inv in ("badhap", "emptyfile", "largest2col", "noknown"):
